@@ -42,6 +42,12 @@ type Op struct {
 
 // Case is a history dealt to 1..3 routines plus the schedule.
 type Case struct {
+	// Tries > 0 (confirm cases of known findings only): execute the
+	// operations under up to Tries different schedules and report the first
+	// violation of class Want (a pinned schedule stops reproducing a race as
+	// soon as an unrelated edit moves a scheduling point).
+	Tries int    `json:"tries,omitempty"`
+	Want  string `json:"want,omitempty"`
 	// World: "" = a 4-class defclass chain per argument; "builtin" = built-in
 	// types (specializers are type names, arguments are literals)
 	World string `json:"world,omitempty"`
@@ -593,6 +599,27 @@ func (e *engine) Execute(raw json.RawMessage) (vd harness.Verdict) {
 	if err := json.Unmarshal(raw, &c); err != nil {
 		panic(err)
 	}
+	if c.Tries > 0 && !c.Replay {
+		pols := []string{sched.PolicyRandom, sched.PolicyRR, sched.PolicyPCT, sched.PolicyRandom}
+		for i := 0; i < c.Tries; i++ {
+			cc := c
+			cc.Tries = 0
+			cc.TapeSeed = tape.Mix(c.TapeSeed, uint64(i))
+			cc.Salt = tape.Mix(c.Salt, uint64(i))
+			cc.Policy = pols[i%len(pols)]
+			cc.SwitchPct = []int{50, 90, 20}[i%3]
+			cc.YieldPct = []int{100, 25}[i%2]
+			cc.PCTDepth = 1 + i%3
+			b, _ := json.Marshal(cc)
+			v := e.Execute(b)
+			vd.Evals += v.Evals
+			if v.V != nil && (c.Want == "" || v.V.Class == c.Want) {
+				v.Evals = vd.Evals
+				return v
+			}
+		}
+		return vd
+	}
 	vd.Evals = 1
 	vd.Faults = map[string]int{}
 	vd.Probes = map[string]int{}
@@ -629,10 +656,14 @@ func (e *engine) Execute(raw json.RawMessage) (vd harness.Verdict) {
 	var recs []rec
 	runTask := func(ti int) {
 		id := s.CurID()
+		// each client evaluates in a scope of its own (an embedder's
+		// goroutines must not share an unsynchronized scope); what the
+		// clients share are the interpreter's tables
+		scope := slip.NewScope()
 		for oi, op := range c.Tasks[ti] {
 			lw.Traces[id] = nil
 			call := s.Seq()
-			res := lispsim.Eval(codes[ti][oi], w.scope)
+			res := lispsim.Eval(codes[ti][oi], scope)
 			out := output{Trace: strings.Join(lw.Traces[id], " "), Value: res.Value, Cond: res.Cond, Msg: res.Msg}
 			if op.K != "call" {
 				out.Value = "" // a printed method object contains a heap address
